@@ -20,6 +20,7 @@ static int g_watch_s = 60;
 static double g_cpu_s = 1.0;
 static std::map<std::string, int>& hangs() { static std::map<std::string, int> h; return h; }
 static void on_alarm(int) {
+  if (in_child()) _exit(77);
   std::printf("#BAD hang :: %s :: call did not terminate within %d s (watchdog)\n", current_op().c_str(), g_watch_s);
   std::fflush(stdout);
   _exit(0);
